@@ -64,7 +64,7 @@ def _txt(n, seed):
 def make_ops(w, full):
     """-> list of (statement bytes, spec)."""
     ops = []
-    if full == 'modes':
+    if full in ('modes', 'modesv'):
         # small alphabet around mode / width changes and the scroll window, for deeper histories
         t1, t2 = _txt(1, 0), _txt(w + 1, 9)
         return [(b'PRINT "%s"' % t1, ('P', t1, True)), (b'PRINT "%s";' % t2, ('P', t2, False)),
@@ -72,9 +72,9 @@ def make_ops(w, full):
                 (b'LOCATE 25,1', ('L', 25, 1)), (b'LOCATE 24,%d' % w, ('L', 24, w)), (b'LOCATE 3,1', ('L', 3, 1)),
                 (b'CLS', ('S', 'CLS')), (b'VIEW PRINT 2 TO 4', ('V', 2, 4)), (b'VIEW PRINT', ('V', None, None)),
                 (b'VIEW PRINT 4 TO 2', ('V', 4, 2)),
-                # the default rows written out: a window all the same (the bottom row stays outside it)
-                (b'VIEW PRINT 1 TO 24', ('V', 1, 24)),
-                (b'WIDTH 40', ('S', 'WIDTH')), (b'WIDTH 80', ('S', 'WIDTH'))]
+                (b'WIDTH 40', ('S', 'WIDTH')), (b'WIDTH 80', ('S', 'WIDTH'))] + (
+                    # the default rows written out: a window all the same (the bottom row stays outside it)
+                    [(b'VIEW PRINT 1 TO 24', ('V', 1, 24))] if full == 'modesv' else [])
     lens = (1, w - 1, w, w + 1, 2 * w) if full else (1, w - 1, w, w + 1)
     for i, n in enumerate(lens):
         for nl in ((False, True) if full or n in (1, w, w + 1) else (False,)):
@@ -124,7 +124,7 @@ def ops_for(cid, full):
 
 
 def spec_of(cid, stmt):
-    for full in (True, False, 'modes'):
+    for full in (True, False, 'modes', 'modesv'):
         for st, sp in ops_for(cid, full):
             if st == stmt:
                 return sp
@@ -394,11 +394,15 @@ def expand_modes(hist):
     return _expand(hist, 'modes')
 
 
+def expand_modesv(hist):
+    return _expand(hist, 'modesv')
+
+
 def work_bfs(shard):
     cid, full, depth, budget = shard
     part = Partial()
-    bfs.explore({True: expand_full, False: expand_core, 'modes': expand_modes}[full], [(cid,)], depth, part, time_budget=budget,
-                label='%s_%s' % (cid, {True: 'full', False: 'core', 'modes': 'modes'}[full]))
+    bfs.explore({True: expand_full, False: expand_core, 'modes': expand_modes, 'modesv': expand_modesv}[full], [(cid,)], depth, part,
+                time_budget=budget, label='%s_%s' % (cid, {True: 'full', False: 'core', 'modes': 'modes', 'modesv': 'modesv'}[full]))
     return part
 
 
@@ -406,13 +410,13 @@ def legs(ctx):
     out = []
     if ctx.quick:
         plan = [(cid, True, 2, None) for cid in CONFIGS] + [(cid, False, 3, None) for cid in ('t80', 's1')]
-        plan += [(cid, 'modes', 4, None) for cid in ('t80', 's1')]
+        plan += [(cid, 'modesv', 4, None) for cid in ('t80', 's1')]
     else:
         plan = [(cid, True, 3, None) for cid in CONFIGS] + [(cid, False, 4, None) for cid in CONFIGS]
-        plan += [(cid, 'modes', 6, None) for cid in CONFIGS]
+        plan += [(cid, 'modes', 6, None) for cid in CONFIGS] + [(cid, 'modesv', 4, None) for cid in CONFIGS]
     for cid, full, depth, budget in plan:
         n = len(ops_for(cid, full))
-        nm = {True: 'full', False: 'core', 'modes': 'modes'}[full]
+        nm = {True: 'full', False: 'core', 'modes': 'modes', 'modesv': 'modesv'}[full]
         out.append(Leg('bfs-%s-%s' % (cid, nm), [(cid, full, depth, budget)], work_bfs,
                        exhaustive=True, serial=True,
                        bound='%s: all histories of <= %d statements over the %s alphabet (%d statements), states '
